@@ -20,12 +20,14 @@ open TdModel TdModel.Bin
 def containerID : Nat := Facts.C22.messageContainerTypeID
 def gzipID : Nat := Facts.C22.gzipTypeID
 def resultID : Nat := Facts.C22.resultTypeID
-/-- `1024*1024` in `Message.Encode`. -/
-def maxMsgEnc : Int := Facts.C22.messageEncodeMaxBytes
-/-- `1024*1024` in `Message.Decode`. -/
-def maxMsgDec : Int := Facts.C22.messageDecodeMaxBytes
-/-- `maxUncompressedSize` in `GZIP.Decode`. -/
-def maxGunz : Nat := Facts.C22.maxUncompressedSize
+/-- `m.Bytes < 0 || m.Bytes > 1024*1024` of `Message.Encode`, translated from the source. -/
+def msgLenInvalidEnc (n : Int) : Bool := Facts.C22.msgLenInvalidEnc n
+/-- The same check of `Message.Decode`, translated from the source. -/
+def msgLenInvalidDec (n : Int) : Bool := Facts.C22.msgLenInvalidDec n
+/-- The second argument of `io.LimitReader` in `GZIP.Decode`, translated. -/
+def gunzLimit : Nat := Facts.C22.gzipLimitArg.toNat
+/-- `reader.Total() >= maxUncompressedSize` of `GZIP.Decode`, translated. -/
+def gunzBomb (total : Nat) : Bool := Facts.C22.gzipBomb (total : Int)
 
 def errTooBig : Err := .other "length"
 def errAuthKey : Err := .other "auth-key-id"
@@ -49,7 +51,7 @@ structure Message.WF (m : Message) : Prop where
 
 /-- `Message.Encode`. -/
 def encodeMessage (m : Message) : Except Err Bytes :=
-  if m.bytes < 0 ∨ m.bytes > maxMsgEnc then .error errTooBig
+  if msgLenInvalidEnc m.bytes then .error errTooBig
   else .ok (putInt64 m.id ++ putInt32 m.seqNo ++ putInt32 m.bytes ++ putRaw m.body)
 
 /-- `Message.Decode`. -/
@@ -63,7 +65,7 @@ def decodeMessage (b : Bytes) : Res Message :=
       match getInt32 r2 with
       | .error e => .error e
       | .ok (n, r3) =>
-        if n < 0 ∨ n > maxMsgDec then .error errTooBig
+        if msgLenInvalidDec n then .error errTooBig
         else
           match getN n.toNat r3 with
           | .error e => .error e
@@ -141,7 +143,7 @@ def decodeUnencrypted (b : Bytes) : Res Unencrypted :=
   match getInt64 b with
   | .error e => .error e
   | .ok (ak, r1) =>
-    if ak ≠ 0 then .error errAuthKey
+    if Facts.C22.unencAuthKeyBad ak then .error errAuthKey
     else
       match getInt64 r1 with
       | .error e => .error e
@@ -149,8 +151,8 @@ def decodeUnencrypted (b : Bytes) : Res Unencrypted :=
         match getInt32 r2 with
         | .error e => .error e
         | .ok (n, r3) =>
-          if n < 0 then .error .invalidLength
-          else if n > r3.length then .error .eof
+          if Facts.C22.unencLenNegative n then .error .invalidLength
+          else if Facts.C22.unencLenBeyond n r3.length then .error .eof
           else
             match getN n.toNat r3 with
             | .error e => .error e
@@ -180,17 +182,21 @@ def gzipUnframe (b : Bytes) : Res Bytes :=
   | .ok (_, r) => getBytes r
 
 /-- Second half of `GZIP.Decode` on the decompressor's behaviour, by output *length*:
-`io.ReadAll(io.LimitReader(r, max))` sees at most `max` bytes; `Total() >= max` is the bomb error;
-otherwise an unclean end is a decompress/checksum error. -/
-def gunzLimitedLen (outLen : Nat) (clean : Bool) : Except Err Unit :=
-  if outLen ≥ maxGunz then .error errBomb
+`io.ReadAll(io.LimitReader(r, L))` sees `min outLen L` bytes; the bomb check is applied to that
+total; if the output reaches `L` the reader is cut there and the end of the stream (clean or not)
+is never observed; otherwise an unclean end is a decompress/checksum error.
+Returns how many bytes `g.Data` gets. -/
+def gunzLimitedLen (outLen : Nat) (clean : Bool) : Except Err Nat :=
+  let seen := min outLen gunzLimit
+  if gunzBomb seen then .error errBomb
+  else if outLen ≥ gunzLimit then .ok gunzLimit
   else if !clean then .error errGzip
-  else .ok ()
+  else .ok outLen
 
 def gunzLimited (o : Bytes × Bool) : Except Err Bytes :=
   match gunzLimitedLen o.1.length o.2 with
   | .error e => .error e
-  | .ok _ => .ok o.1
+  | .ok n => .ok (o.1.take n)
 
 /-- `GZIP.Decode`. -/
 def decodeGzip (G : Gz) (b : Bytes) : Res Bytes :=
@@ -213,7 +219,7 @@ def decodeMessageP (b : Bytes) : Out (Message × Bytes) := do
   let (id, r1) ← getInt64P b
   let (seq, r2) ← getInt32P r1
   let (n, r3) ← getInt32P r2
-  if n < 0 ∨ n > maxMsgDec then .err errTooBig
+  if msgLenInvalidDec n then .err errTooBig
   else do
     let _buf ← goMake n
     let (body, r4) ← getNP n.toNat r3
@@ -241,12 +247,12 @@ def decodeResultP (b : Bytes) : Out (Result × Bytes) := do
 /-- `UnencryptedMessage.Decode` with `make([]byte, dataLen)` explicit. -/
 def decodeUnencryptedP (b : Bytes) : Out (Unencrypted × Bytes) := do
   let (ak, r1) ← getInt64P b
-  if ak ≠ 0 then .err errAuthKey
+  if Facts.C22.unencAuthKeyBad ak then .err errAuthKey
   else do
     let (mid, r2) ← getInt64P r1
     let (n, r3) ← getInt32P r2
-    if n < 0 then .err .invalidLength
-    else if n > r3.length then .err .eof
+    if Facts.C22.unencLenNegative n then .err .invalidLength
+    else if Facts.C22.unencLenBeyond n r3.length then .err .eof
     else do
       let _buf ← goMake n
       let (d, r4) ← getNP n.toNat r3
@@ -256,5 +262,140 @@ def decodeUnencryptedP (b : Bytes) : Out (Unencrypted × Bytes) := do
 def gzipUnframeP (b : Bytes) : Out (Bytes × Bytes) := do
   let (_, r) ← consumeIDP gzipID b
   getBytesP r
+
+/-! ### Regenerated write / read orders, interpreted
+
+`Facts.C22.ops…` list, in source order, the calls each method makes on its `*bin.Buffer`
+(method, argument kind, field name, constant) — extracted from the AST on every run.  The
+definitions below *interpret* these lists; `Props/C22.lean` proves the interpretations equal to the
+transliterated definitions above for all inputs, and the driver runs the interpreted encoders, so
+the order of fields, the width of each field (PutInt vs PutLong), the type ids and which field is
+written are tied to the current source both by proof and by correspondence. -/
+
+abbrev Op := String × String × String × Int
+
+/-- What a struct field holds. -/
+inductive FV where
+  | int (i : Int)
+  | bytes (b : Bytes)
+  | count (n : Nat)     -- a slice of which only the length is used (`len(m.Messages)`)
+
+/-- One `b.PutXxx(arg)`.  `extra` is the one non-field argument a method may pass
+(`buf.Bytes()`: the compressed data in `GZIP.Encode`). -/
+def writeOp (env : String → Option FV) (extra : Bytes) (op : Op) : Option Bytes :=
+  match op with
+  | ("PutLong", "field", f, _) => match env f with | some (.int i) => some (putInt64 i) | _ => none
+  | ("PutLong", "const", _, c) => some (putInt64 c)
+  | ("PutInt", "field", f, _) => match env f with | some (.int i) => some (putInt32 i) | _ => none
+  | ("PutInt32", "field", f, _) => match env f with | some (.int i) => some (putInt32 i) | _ => none
+  | ("PutInt", "len", f, _) =>
+    match env f with | some (.bytes b) => some (putInt32 b.length) | some (.count n) => some (putInt32 n) | _ => none
+  | ("PutInt32", "len", f, _) =>
+    match env f with | some (.bytes b) => some (putInt32 b.length) | some (.count n) => some (putInt32 n) | _ => none
+  | ("PutID", "const", _, c) => some (putU32 c.toNat)
+  | ("Put", "field", f, _) => match env f with | some (.bytes b) => some (putRaw b) | _ => none
+  | ("PutBytes", "field", f, _) => match env f with | some (.bytes b) => some (putBytes b) | _ => none
+  | ("PutBytes", "expr", _, _) => some (putBytes extra)
+  | _ => none
+
+def writeOps (env : String → Option FV) (extra : Bytes) : List Op → Option Bytes
+  | [] => some []
+  | op :: rest =>
+    match writeOp env extra op, writeOps env extra rest with
+    | some a, some b => some (a ++ b)
+    | _, _ => none
+
+/-- One integer read: `b.Long()`, `b.Int()`, `b.Int32()`. -/
+def readOp (op : Op) (b : Bytes) : Res Int :=
+  match op with
+  | ("Long", _, _, _) => getInt64 b
+  | ("Int", _, _, _) => getInt32 b
+  | ("Int32", _, _, _) => getInt32 b
+  | _ => .error (.other "unknown-op")
+
+/-- The leading reads of a decoder that are stored into receiver fields: (field, value) pairs. -/
+def readStores : List Op → Bytes → Res (List (String × Int))
+  | [], b => .ok ([], b)
+  | op :: rest, b =>
+    match op with
+    | (_, "store", f, _) =>
+      match readOp op b with
+      | .error e => .error e
+      | .ok (v, r) =>
+        match readStores rest r with
+        | .error e => .error e
+        | .ok (vs, r') => .ok ((f, v) :: vs, r')
+    | _ => .ok ([], b)
+
+def lookupField (vs : List (String × Int)) (f : String) : Option Int :=
+  match vs with
+  | [] => none
+  | (g, v) :: rest => if g = f then some v else lookupField rest f
+
+def envMessage (m : Message) : String → Option FV
+  | "ID" => some (.int m.id)
+  | "SeqNo" => some (.int m.seqNo)
+  | "Bytes" => some (.int m.bytes)
+  | "Body" => some (.bytes m.body)
+  | _ => none
+
+/-- `Message.Encode`, write order regenerated. -/
+def encodeMessageG (m : Message) : Except Err Bytes :=
+  if msgLenInvalidEnc m.bytes then .error errTooBig
+  else match writeOps (envMessage m) [] Facts.C22.opsMessageEncode with
+    | some x => .ok x
+    | none => .error (.other "ops")
+
+def encodeMessagesG : List Message → Except Err Bytes
+  | [] => .ok []
+  | m :: ms =>
+    match encodeMessageG m with
+    | .error e => .error e
+    | .ok x =>
+      match encodeMessagesG ms with
+      | .error e => .error e
+      | .ok y => .ok (x ++ y)
+
+/-- `MessageContainer.Encode`, header regenerated. -/
+def encodeContainerG (ms : List Message) : Except Err Bytes :=
+  match writeOps (fun f => if f = "Messages" then some (.count ms.length) else none) [] Facts.C22.opsContainerEncode,
+        encodeMessagesG ms with
+  | some h, .ok body => .ok (h ++ body)
+  | none, _ => .error (.other "ops")
+  | _, .error e => .error e
+
+/-- `Message.Decode`, read order / widths / target fields regenerated. -/
+def decodeMessageG (b : Bytes) : Res Message :=
+  match readStores Facts.C22.opsMessageDecode b with
+  | .error e => .error e
+  | .ok (vs, r) =>
+    match lookupField vs "ID", lookupField vs "SeqNo", lookupField vs "Bytes" with
+    | some id, some seq, some n =>
+      if msgLenInvalidDec n then .error errTooBig
+      else
+        match getN n.toNat r with
+        | .error e => .error e
+        | .ok (body, r') => .ok (⟨id, seq, n, body⟩, r')
+    | _, _, _ => .error (.other "ops")
+
+def envResult (x : Result) : String → Option FV
+  | "RequestMessageID" => some (.int x.reqMsgID)
+  | "Result" => some (.bytes x.result)
+  | _ => none
+
+/-- `Result.Encode`, regenerated. -/
+def encodeResultG (x : Result) : Option Bytes := writeOps (envResult x) [] Facts.C22.opsResultEncode
+
+def envUnencrypted (u : Unencrypted) : String → Option FV
+  | "MessageID" => some (.int u.messageID)
+  | "MessageData" => some (.bytes u.data)
+  | _ => none
+
+/-- `UnencryptedMessage.Encode`, regenerated. -/
+def encodeUnencryptedG (u : Unencrypted) : Option Bytes :=
+  writeOps (envUnencrypted u) [] Facts.C22.opsUnencryptedEncode
+
+/-- `GZIP.Encode` around the compressed bytes, regenerated. -/
+def gzipFrameG (compressed : Bytes) : Option Bytes := writeOps (fun _ => none) compressed Facts.C22.opsGzipEncode
 
 end TdModel.C22
